@@ -94,8 +94,11 @@ def rule_a(ctx, ix, f):
     upd = [st for st in walk_no_nested(f.node) if isinstance(st, ast.Assign) and unparse(st.targets[0]) == 'current_array_hash'
            and not isinstance(st.value, ast.Tuple)]
     ok = len(upd) == 1 and unparse(upd[0].value).replace(' ', '') == 'current_array_hash[:1]+(cache_bounds,)+current_array_hash[2:]'
-    ctx.ob(R, f.construct + ' wildcard', 'only the bounds slot of the key is replaced by its wildcard form before storing', ok,
-           detail='the stored key is rebuilt as %s' % (unparse(upd[0].value) if upd else None), where=f.where)
+    ctx.idiom(R, f.construct + ' wildcard', 'only the bounds slot of the key is replaced by its wildcard form before storing',
+              accepted=ok, absent=not upd,
+              detail_absent='the stored key no longer replaces the bounds by their wildcard form: the cache never matches again when '
+                            'slicing through a cube (or matches with stale bounds)',
+              shape='; '.join(unparse(u.value) for u in upd), where=f.where)
     for st in keys:
         ctx.ob(R, f.construct + ' bounds slot', 'bounds is the second element of the key (the slot the wildcard replaces)',
                unparse(st.value.elts[1]) == 'bounds', detail='bounds is not at index 1 of %s' % unparse(st.value), where=where(f, st),
